@@ -102,14 +102,70 @@ def _canon(atoms, tt):
     return (atoms, tt2)
 
 
+def is_xs(a):
+    return a is not None and a[1] == "xs"
+
+
+@lru_cache(maxsize=100000)
+def _anf(n, tt):
+    """monomials (as bit masks over the n local atoms) of the algebraic normal form of tt"""
+    rows = [(tt >> r) & 1 for r in range(1 << n)]
+    for i in range(n):
+        for r in range(1 << n):
+            if (r >> i) & 1:
+                rows[r] ^= rows[r ^ (1 << i)]
+    return tuple(r for r in range(1 << n) if rows[r])
+
+
+def anf_monomials(b):
+    """canonical xor-of-monomials view of an exact bit: (frozenset of atom-id tuples, const)"""
+    if b[1] == "xs":
+        return b[2], b[3]
+    atoms, tt = b
+    mons = set()
+    const = 0
+    for m in _anf(len(atoms), tt):
+        if m == 0:
+            const ^= 1
+        else:
+            mons.add(tuple(atoms[k] for k in range(len(atoms)) if (m >> k) & 1))
+    return frozenset(mons), const
+
+
+def mk_xs(mons, const):
+    """xor of monomials (+ constant): the canonical form of bits whose support exceeds K"""
+    mons = frozenset(mons)
+    atoms = tuple(sorted({x for m in mons for x in m}))
+    if len(atoms) <= K:
+        # small again: back to the truth-table form
+        tt = 0
+        for r in range(1 << len(atoms)):
+            v = const
+            for m in mons:
+                if all((r >> atoms.index(x)) & 1 for x in m):
+                    v ^= 1
+            if v:
+                tt |= 1 << r
+        return _canon(atoms, tt)
+    return (atoms, "xs", mons, const)
+
+
+def xs_parts(a):
+    return anf_monomials(a)
+
+
 def bnot(a):
     if a is None:
         return None
+    if a[1] == "xs":
+        return (a[0], "xs", a[2], 1 - a[3])
     return (a[0], a[1] ^ _full(len(a[0])))
 
 
 def _merge(a, b):
     """union support, expanded tts; None if too large"""
+    if a[1] == "xs" or b[1] == "xs":
+        return None
     aa, ab = a[0], b[0]
     if aa == ab:
         return aa, a[1], b[1]
@@ -179,7 +235,10 @@ def bxor(a, b):
         return ZERO
     m = _merge(a, b)
     if m is None:
-        return None
+        # keep the sum symbolic: xor-sum of small functions (exact)
+        ta, ca = xs_parts(a)
+        tb, cb = xs_parts(b)
+        return mk_xs(ta ^ tb, ca ^ cb)
     return _canon(m[0], m[1] ^ m[2])
 
 
@@ -209,6 +268,9 @@ def describe(b):
     """human readable form of a bit function"""
     if b is None:
         return "TOP"
+    if b[1] == "xs":
+        ms = sorted("&".join(ATOMS.name(x) for x in m) for m in b[2])
+        return ("!" if b[3] else "") + "XOR{" + ", ".join(ms[:6]) + (", ..%d terms" % len(ms) if len(ms) > 6 else "") + "}"
     atoms, tt = b
     if not atoms:
         return str(tt)
@@ -228,6 +290,12 @@ def describe(b):
 
 def eval_bit(b, assignment):
     """assignment: dict atom id -> 0/1"""
+    if b[1] == "xs":
+        v = b[3]
+        for m in b[2]:
+            if all(assignment.get(x, 0) for x in m):
+                v ^= 1
+        return v
     atoms, tt = b
     r = 0
     for k, x in enumerate(atoms):
@@ -236,9 +304,49 @@ def eval_bit(b, assignment):
     return (tt >> r) & 1
 
 
+def restrict(b, asg):
+    """substitute constants for some atoms (asg: atom id -> 0/1)"""
+    if b is None or not b[0]:
+        return b
+    if b[1] == "xs":
+        mons = {}
+        const = b[3]
+        for m in b[2]:
+            if any(x in asg and not asg[x] for x in m):
+                continue
+            m2 = tuple(x for x in m if x not in asg)
+            if not m2:
+                const ^= 1
+            else:
+                mons[m2] = mons.get(m2, 0) ^ 1
+        return mk_xs([m for m, c in mons.items() if c], const)
+    atoms, tt = b
+    if not any(x in asg for x in atoms):
+        return b
+    keep = [k for k, x in enumerate(atoms) if x not in asg]
+    out = 0
+    for r2 in range(1 << len(keep)):
+        r = 0
+        for j, k in enumerate(keep):
+            if (r2 >> j) & 1:
+                r |= 1 << k
+        for k, x in enumerate(atoms):
+            if x in asg and asg[x]:
+                r |= 1 << k
+        if (tt >> r) & 1:
+            out |= 1 << r2
+    return _canon(tuple(atoms[k] for k in keep), out)
+
+
 def sat_assignment(b):
     """some assignment (dict atom->0/1) making b true, or None"""
     if b is None:
+        return None
+    if b[1] == "xs":
+        cands = [{}] + [{x: 1 for x in m} for m in sorted(b[2], key=len)[:64]]
+        for c in cands:
+            if eval_bit(b, c):
+                return {x: c.get(x, 0) for x in b[0]}
         return None
     atoms, tt = b
     if tt == 0:
